@@ -30,6 +30,8 @@ type z =
 | Zpos of positive
 | Zneg of positive
 
+val eqb : bool -> bool -> bool
+
 module Pos :
  sig
   val succ : positive -> positive
@@ -282,3 +284,80 @@ val oev_eqb : sent option -> sent option -> bool
 val chk_eqb : chk -> chk -> bool
 
 val exc_compatible : fspec -> fspec -> bool
+
+type ity = { iw : z; isg : bool }
+
+val t_INT : ity
+
+val t_UINT : ity
+
+val t_LONG : ity
+
+val t_ULONG : ity
+
+val ity_okb : ity -> bool
+
+val in_ty : ity -> z -> bool
+
+val conv : ity -> z -> z
+
+val promote : ity -> ity
+
+val uac : ity -> ity -> ity
+
+type lsuf =
+| SufNone
+| SufL
+| SufU
+| SufUL
+
+type cexpr =
+| CDec of z * lsuf
+| CHex of z * lsuf
+| CInt of z
+| CNeg of cexpr
+| CAdd of cexpr * cexpr
+| CSub of cexpr * cexpr
+| CMul of cexpr * cexpr
+| CCast of ity * cexpr
+
+val lit_types : bool -> lsuf -> ity list
+
+val first_fit : ity list -> z -> (ity * z) option
+
+val arith : ity -> z -> (ity * z) option
+
+val binop :
+  (z -> z -> z) -> (ity * z) option -> (ity * z) option -> (ity * z) option
+
+val ceval : cexpr -> (ity * z) option
+
+val eq_test : ity -> z -> cexpr -> bool option
+
+val emitted : ity option -> cexpr -> cexpr
+
+val stored : ity -> cexpr -> z option
+
+val fires : ity option -> ity -> cexpr -> z -> bool
+
+val kind_of : ity -> rkind
+
+val fn_spec : ity -> cexpr -> chk -> fspec option
+
+val site_spec : ity option -> ity -> cexpr -> chk -> fspec option
+
+val observe_value :
+  ity option -> ity -> cexpr -> chk -> flavour -> bool -> body -> state ->
+  observed option
+
+type fty =
+| F32
+| F64
+
+val fconv : ('a1 -> 'a1) -> fty -> 'a1 -> 'a1
+
+val float_test :
+  ('a1 -> 'a1 -> bool) -> ('a1 -> 'a1) -> bool -> fty option -> 'a1 -> 'a1 ->
+  bool
+
+val float_stored : ('a1 -> 'a1) -> fty -> 'a1 -> 'a1
